@@ -7,39 +7,60 @@ from . import shared_grid  # noqa
 TF = {'coord': 'opt[tuple[int,int,int]]', 'source': 'opt[opaque]'}
 
 
-def _level_bulk_load(ex, st, post, result):
-    """the level-dispatching bulk load may answer without asking a level database ONLY if no tile needs loading"""
+def _wanted_tile_sorted_by_level(ex, st, k):
+    """loop 0: a tile that needs loading is put on the list of ITS level; the others are left alone"""
     import z3
-    tiles = post.env['tiles']
-    deleg = [e for i, e in T.evs(st, 'load_tiles')]
-    lvl = [e for i, e in T.evs(st, '_get_level')]
-    if deleg or lvl:
-        # delegated: to the database of the level of a tile that needs loading, with the whole list
-        ok = len(deleg) == 1 and len(lvl) == 1 and deleg[0].args and deleg[0].args[0] is tiles
-        yield ('bulk_load_delegates_whole_list', z3.BoolVal(bool(ok)),
-               'the whole list goes to ONE level database (the level of the first tile that needs loading)')
-        return
-    sp = st.fork()
-    sp.spec = True
-    sp.env = {'tiles': tiles}
-    goal = ex.spec_bool(sp, 'forall(lambda j: implies(0 <= j < len(tiles), bool(tiles[j].source) or tiles[j].coord is None))')
-    yield ('no_database_asked_only_if_nothing_to_load',
-           goal,
-           'returning without asking a level database means every tile already has its source (or no address) - '
-           'for every level, level 0 included')
+    from pyvc.values import eq
+    evs_ = st.trace[getattr(st, 'iter_start_trace', 0):]
+    pre = st.iter_start_state
+    tile = st.env['tile']
+    sd = [e for e in evs_ if e.name == 'setdefault']
+    ap = [e for e in evs_ if e.name == 'append']
+    coord = ex.opaque_field(pre, tile, 'coord')
+    src = ex.opaque_field(pre, tile, 'source')
+    skip = z3.Or(ex.truth(pre, src), coord.isnone)
+    ok = len(sd) == 1 and len(ap) == 1 and len(sd[0].args) == 2 and ap[0].recv is not None and ap[0].recv.t.eq(sd[0].result.t) \
+        and ap[0].args[-1] is tile and sd[0].recv is not None and hasattr(pre.env['level_tiles'], 't') and sd[0].recv.t.eq(pre.env['level_tiles'].t)
+    g_do = z3.BoolVal(bool(ok))
+    if ok:
+        g_do = z3.And(g_do, eq(sd[0].args[0], coord.val.items[2]))
+    yield ('wanted_tile_goes_on_the_list_of_its_level', z3.If(skip, z3.BoolVal(not sd and not ap), g_do),
+           'a tile without data and with an address is appended to level_tiles[tile.coord[2]] - the list of its OWN level; a tile '
+           'that has its data or no address is not queried')
+
+
+def _level_list_goes_to_its_database(ex, st, k):
+    """loop 1: the list collected under a level is loaded from the database of THAT level; a failure there makes the answer False"""
+    import z3
+    from pyvc.values import eq
+    evs_ = st.trace[getattr(st, 'iter_start_trace', 0):]
+    pre = st.iter_start_state
+    gl = [e for e in evs_ if e.name.endswith('_get_level')]
+    ld = [e for e in evs_ if e.name == 'load_tiles']
+    ok = len(gl) == 1 and len(ld) == 1 and ld[0].recv is not None and ld[0].recv.t.eq(gl[0].result.t) and ld[0].args[0] is st.env['missing']
+    g = z3.BoolVal(bool(ok))
+    if ok:
+        g = z3.And(g, eq(gl[0].args[-1], st.env['level']),
+                   z3.BoolVal(ld[0].kwargs.get('with_metadata') is st.env['with_metadata'] and ld[0].kwargs.get('dimensions') is st.env['dimensions']),
+                   # all_loaded stays True only while every level database reported success
+                   ex.truth(st, st.env['all_loaded']) == z3.And(ex.truth(pre, pre.env['all_loaded']), ex.truth(st, ld[0].result)))
+    yield ('each_level_list_is_loaded_from_its_own_database', g,
+           'for every level with missing tiles: self._get_level(level).load_tiles(<the tiles of that level>, with_metadata, dimensions); '
+           'the overall answer is True only if every level database found all of its tiles')
 
 
 for _k, _c in (('mapproxy.cache.mbtiles:', 'MBTilesLevelCache'), ('mapproxy.cache.geopackage:', 'GeopackageLevelCache')):
     cls(_k + _c, fields={})
     contract(_k + _c + '.load_tiles', props=['C05'],
-             types=dict(tiles='list[opaque]', with_metadata='bool', dimensions='opaque'), returns='opaque',
+             types=dict(tiles='list[opaque]', with_metadata='bool', dimensions='opaque'), returns='bool',
              default_callee='opaque', opaque_fields=TF, stable_fields=list(TF),
-             opaque_spec={'_get_level': {'pure': True}, 'load_tiles': {'pure': True}},
+             opaque_spec={'_get_level': {'pure': True}, 'load_tiles': {'returns': 'bool', 'pure': True}, 'setdefault': {'pure': True},
+                          'append': {'pure': True}, 'items': {'returns': 'list[tuple[int,opaque]]', 'pure': True}},
              opaque=['_get_level'],
-             loops={0: dict(types={'level': 'opt[int]'},
-                            inv=['level is None',
-                                 'forall(lambda j: implies(0 <= j < _k, bool(tiles[j].source) or tiles[j].coord is None))'])},
-             trace=[_level_bulk_load])
+             # ('level' is typed so that the former one-level version of this loop stays inside the subset and is refuted)
+             loops={0: dict(types={'level_tiles': 'opaque', 'level': 'opt[int]'}, inv=[], body_trace=[_wanted_tile_sorted_by_level],
+                            no_early_exit='every tile of the list is looked at: the tiles may belong to different levels'),
+                    1: dict(types={'all_loaded': 'bool'}, inv=['implies(_k == 0, all_loaded)'], body_trace=[_level_list_goes_to_its_database])})
 
 
 # ---- single-file databases: result rows are matched to the requested tiles by the FULL address --------------------------------
